@@ -59,21 +59,21 @@ type c19Redirect struct {
 }
 
 type c19Case struct {
-	Path          string        `json:"path"` // getter | downloader | locate | pull | manager
-	Mode          string        `json:"mode"` // reponame | reponame-flag-creds | absolute-url | repo-flag | direct-url | (manager) how the dependency names its repository
-	Repos         []c19Repo     `json:"repos"`
-	Main          int           `json:"main"`  // the repository the operation addresses
-	Class         string        `json:"class"` // relation of the chart URL to the repository URL, as generated (label only)
-	Hrefs         []string      `json:"hrefs,omitempty"`
-	Ref           string        `json:"ref,omitempty"`
-	Verify        string        `json:"verify,omitempty"` // never | ifpossible | later | always
-	DepRepository string        `json:"dep_repository,omitempty"`
-	DepVersion    string        `json:"dep_version,omitempty"`
-	SkipUpdate    bool          `json:"skip_update,omitempty"`
-	UpdateFirst   bool          `json:"update_first,omitempty"` // downloader: refresh the repository's index first (helm repo update)
+	Path          string    `json:"path"` // getter | downloader | locate | pull | manager
+	Mode          string    `json:"mode"` // reponame | reponame-flag-creds | absolute-url | repo-flag | direct-url | (manager) how the dependency names its repository
+	Repos         []c19Repo `json:"repos"`
+	Main          int       `json:"main"`  // the repository the operation addresses
+	Class         string    `json:"class"` // relation of the chart URL to the repository URL, as generated (label only)
+	Hrefs         []string  `json:"hrefs,omitempty"`
+	Ref           string    `json:"ref,omitempty"`
+	Verify        string    `json:"verify,omitempty"` // never | ifpossible | later | always
+	DepRepository string    `json:"dep_repository,omitempty"`
+	DepVersion    string    `json:"dep_version,omitempty"`
+	SkipUpdate    bool      `json:"skip_update,omitempty"`
+	UpdateFirst   bool      `json:"update_first,omitempty"` // downloader: refresh the repository's index first (helm repo update)
 	// ThenPull (pull): a second reference pulled with the same Pull object afterwards, as `helm pull a b` does
-	ThenPull string `json:"then_pull,omitempty"`
-	Redirects     []c19Redirect `json:"redirects,omitempty"`
+	ThenPull  string        `json:"then_pull,omitempty"`
+	Redirects []c19Redirect `json:"redirects,omitempty"`
 }
 
 func c19JSON(v interface{}) string {
